@@ -27,7 +27,14 @@ const c13Msg = "Subject: x\r\n\r\nbody line\r\n"
 
 var c13Codes = []int{451, 550, 452, 551, 450, 553}
 
-func c13Addr(ch byte) string { return fmt.Sprintf("ok%c@x.example", ch) }
+// The two recipients differ in the case of one letter only: local parts are case-sensitive (RFC 5321 2.4), they are
+// two recipients with two statuses.
+func c13Addr(ch byte) string {
+	if ch == 'b' {
+		return "okA@x.example"
+	}
+	return fmt.Sprintf("ok%c@x.example", ch)
+}
 
 func c13StatusErr(k int) error {
 	if k%3 == 2 {
